@@ -2216,6 +2216,10 @@ class Ev:
 
     def elem_of(self, container):
         """Symbolic element of an iterated container, or None if its shape is not declared."""
+        if isinstance(container, Sym) and container.tag[:1] == ("lane",) and len(container.tag) == 4:
+            # a row / column of an opaque 2-d array: element k of row i is cell (i, k), of column j cell (k, j)
+            _, a_, ax_, i_ = container.tag
+            return lambda idx, a_=a_, ax_=ax_, i_=i_: Sym("cell", a_, i_ if ax_ == 0 else idx.key(), idx.key() if ax_ == 0 else i_)
         f = self.hooks.get("@elem")
         return f(container) if f else None
 
@@ -2287,12 +2291,20 @@ class Ev:
             sq = Seq(Sym("once", vkey(recv.tag[2])), lambda idx, v=recv.tag[2]: v)
             sq.once = recv.tag[2]
             return sq
-        if m in ("axis_iter", "outer_iter", "rows", "columns") and isinstance(recv, Sym) and recv.tag[:1] in (("param",), ("m",), ("field",)) and \
-                ((m == "axis_iter" and len(args) == 1 and isinstance(args[0], Sym) and args[0].tag[:2] == ("ctor", "Axis") and len(args[0].tag) == 3 and
-                  isinstance(args[0].tag[2], Poly) and args[0].tag[2].const_value() in (0, 1)) or (m != "axis_iter" and not args)):
-            # the lanes of an opaque 2-d array along an axis, in order: lane i of axis 0 is row i, of axis 1 column i (each an opaque 1-d view)
-            ax = int(args[0].tag[2].const_value()) if m == "axis_iter" else (1 if m == "columns" else 0)
+        if m in ("axis_iter", "outer_iter", "rows", "columns", "lanes") and isinstance(recv, Sym) and recv.tag[:1] in (("param",), ("m",), ("field",), ("matrix",), ("payload",)) and \
+                ((m in ("axis_iter", "lanes") and len(args) == 1 and isinstance(args[0], Sym) and args[0].tag[:2] == ("ctor", "Axis") and len(args[0].tag) == 3 and
+                  isinstance(args[0].tag[2], Poly) and args[0].tag[2].const_value() in (0, 1)) or (m not in ("axis_iter", "lanes") and not args)) and "ndarray" in d:
+            # the lanes of an opaque 2-d array, in order: `axis_iter(Axis(0))`, `outer_iter()`, `rows()` and `lanes(Axis(1))` walk the rows (lane i = row i);
+            # `axis_iter(Axis(1))`, `columns()` and `lanes(Axis(0))` walk the columns — each lane an opaque 1-d view
+            if m == "axis_iter":
+                ax = int(args[0].tag[2].const_value())
+            elif m == "lanes":
+                ax = 1 - int(args[0].tag[2].const_value())
+            else:
+                ax = 1 if m == "columns" else 0
             return Seq(Sym("axis", vkey(recv), ax), lambda idx, a=recv, ax=ax: Sym("lane", vkey(a), ax, idx.key()))
+        if m in ("row", "column") and len(args) == 1 and isinstance(args[0], Poly) and isinstance(recv, Sym) and recv.tag[:1] in (("param",), ("field",), ("matrix",), ("payload",)) and "ndarray" in d:
+            return Sym("lane", vkey(recv), 0 if m == "row" else 1, args[0].key())
         if m == "into_shape_with_order" and len(args) == 1 and isinstance(recv, Coll) and isinstance(args[0], Tup):
             return Sym("ctor", "Ok", Sym("reshaped", vkey(recv), vkey(args[0])))          # the same elements, row-major, in the given shape (Err only if the count differs: the `?`/expect convention)
         if m == "cartesian_product" and len(args) == 1 and isinstance(recv, Seq) and isinstance(args[0], Seq) and not recv.enumerated and not args[0].enumerated:
